@@ -7,6 +7,8 @@ import Gzx.Model.PureBits
 import Gzx.Model.DetAztec2
 import Gzx.Model.AztecRS
 import Gzx.Gen.C11Aztec
+import Gzx.Model.DetMulti
+import Gzx.Model.MultiSA
 namespace Gzx.Driver.C06Rest
 open Gzx Gzx.Det Gzx.Driver.C06Det
 
@@ -116,7 +118,112 @@ def handleAZ2 : List String → Option String
     | .error e => showFault e
   | _ => none
 
+/-! ## multi QR: scan, selection, DetectMulti up to sampling -/
+
+def parseFP4? (s : String) : Option (QR.FP Float) :=
+  match s.splitOn "," with
+  | [x, y, sz, c] => match parseF? x, parseF? y, parseF? sz, parseInt? c with
+    | some x, some y, some sz, some c => some { x := x, y := y, size := sz, count := c }
+    | _, _, _, _ => none
+  | _ => none
+
+def parseFPs? (s : String) : Option (List (QR.FP Float)) :=
+  if s == "-" then some [] else (s.splitOn ";").mapM parseFP4?
+
+def showTriples (ts : List (Multi.Triple Float)) : String :=
+  "|".intercalate (ts.map (fun t => s!"{showFP t.1};{showFP t.2.1};{showFP t.2.2}"))
+
+def showTriplesRes : Res (List (Multi.Triple Float)) → String
+  | .ok ts => "ok " ++ showTriples ts
+  | .error e => showFault e
+
+def sortOf (mode : String) : List (QR.FP Float) → List (QR.FP Float) :=
+  if mode == "ins" then Multi.sortBySizeDesc FOps.float else id
+
+def showLocs : Res (List (QR.Located Float)) → String
+  | .ok ls => "ok " ++ (if ls.isEmpty then "-" else ",".intercalate (ls.map (fun l => toString l.dimension)))
+  | .error e => showFault e
+
+def handleMulti : List String → Option String
+  | ["mscan", w, h, bits, th] => some <| withImg w h bits fun img w h =>
+    match Multi.findMultiScan FOps.float img.rdGo h w (th == "1") with
+    | .ok cs => "ok " ++ showFPs cs
+    | .error e => showFault e
+  -- selection on a given centre list; mode `id` = the list is already sorted, `ins` = insertion sort
+  | ["msel", mode, fps] => some <|
+    match parseFPs? fps with
+    | some cs => showTriplesRes (Multi.selectMultipleBestPatterns FOps.float (sortOf mode) cs)
+    | none => "bad-op"
+  | ["mfindfrom", mode, fps] => some <|
+    match parseFPs? fps with
+    | some cs => showTriplesRes (Multi.selectAndOrder FOps.float (sortOf mode) cs)
+    | none => "bad-op"
+  | ["mfind", w, h, bits, th] => some <| withImg w h bits fun img w h =>
+    showTriplesRes (Multi.findMulti FOps.float (Multi.sortBySizeDesc FOps.float) img.rdGo h w (th == "1"))
+  | ["mdetectfrom", w, h, bits, mode, fps] => some <| withImg w h bits fun img w h =>
+    match parseFPs? fps with
+    | some cs => showLocs (Multi.detectMultiFrom FOps.float (sortOf mode) img.rdGo w h cs)
+    | none => "bad-op"
+  | ["mdetect", w, h, bits, th] => some <| withImg w h bits fun img w h =>
+    showLocs (Multi.detectMulti FOps.float (Multi.sortBySizeDesc FOps.float) img.rdGo w h (th == "1"))
+  | _ => none
+
+/-! ## processStructuredAppend -/
+
+open Gzx.MultiSA in
+def parseMetaVal? (s : String) : Option MetaVal :=
+  if s.startsWith "i" then (parseInt? (s.drop 1).toString).map MetaVal.int
+  else if s.startsWith "s" then
+    let body := (s.drop 1).toString
+    if body.isEmpty then some (.segs [])
+    else ((body.splitOn "/").mapM parseHex?).map MetaVal.segs
+  else if s.startsWith "o" then some (.other (s.drop 1).toString)
+  else none
+
+open Gzx.MultiSA in
+def parseSAResult? (s : String) : Option Result :=
+  match s.splitOn ";" with
+  | [t, r, p, m] =>
+    match parseHex? t, parseHex? r, parseNat? p with
+    | some t, some r, some p =>
+      let kvs := if m == "-" then some [] else (m.splitOn ",").mapM (fun kv =>
+        match kv.splitOn ":" with
+        | [k, v] => match parseNat? k, parseMetaVal? v with
+          | some k, some v => some (k, v)
+          | _, _ => none
+        | _ => none)
+      kvs.map (fun kvs => { text := t, raw := r, npoints := p, md := kvs })
+    | _, _, _ => none
+  | _ => none
+
+open Gzx.MultiSA in
+def showMetaVal : MetaVal → String
+  | .int n => s!"i{n}"
+  | .segs ss => "s" ++ "/".intercalate (ss.map showHex)
+  | .other t => "o" ++ t
+
+open Gzx.MultiSA in
+def showSAResult (r : Result) : String :=
+  s!"{showHex r.text};{showHex r.raw};{r.npoints};" ++
+    (if r.md.isEmpty then "-" else ",".intercalate (r.md.map (fun kv => s!"{kv.1}:{showMetaVal kv.2}")))
+
+def handleSA : List String → Option String
+  | ["sa", rs] => some <|
+    match (if rs == "-" then some [] else (rs.splitOn "|").mapM parseSAResult?) with
+    | some rs =>
+      match MultiSA.process MultiSA.sortBySeq rs with
+      | .ok out => "ok " ++ (if out.isEmpty then "-" else "|".intercalate (out.map showSAResult))
+      | .error e => showFault e
+    | none => "bad-op"
+  | _ => none
+
 def handle (args : List String) : String :=
+  match handleMulti args with
+  | some r => r
+  | none =>
+  match handleSA args with
+  | some r => r
+  | none =>
   match handlePure args with
   | some r => r
   | none =>
